@@ -15,8 +15,9 @@
    With C below 10^18 base units the payment is within one base unit of floor(credited*C/total);
    in general within 1 + C/10^18.  The sum bound needs n * C < 2 * 10^18 (n counted provers):
    beyond it the 18-digit rounding of n shares can add up to more than C (Example at the end). *)
-From Coq Require Import ZArith NArith List Bool.
-From JK Require Import Base.Dec Base.AList Model.Rewards Proofs.RewardsProofs.
+From Coq Require Import ZArith NArith List Bool Lia.
+From JK Require Import Base.Dec Base.AList Model.Rewards Proofs.RewardsProofs Proofs.RewardBlockProofs.
+From JK Require Import Model.Gauge Proofs.GaugeProofs Proofs.RewardGaugeBridge.
 Import ListNotations.
 Open Scope Z_scope.
 
@@ -145,6 +146,180 @@ Theorem C03_block_payout_hypotheses_hold :
 Proof. exact block_tracker_good. Qed.
 Print Assumptions C03_block_payout_hypotheses_hold.
 
+(* THE WHOLE BLOCK.  run_reward_block = RunRewardBlock: the CheckWindow/height test, the loop over
+   all files, the credit of the released coins to the module account, the payout.  For every
+   state whose files satisfy the C17 invariant, with non-negative sizes whose listed total fits
+   int64, int64 burn counters, every released coin set with one non-negative entry per
+   denomination and slots * C < 2*10^18, a module account that is not in debt in the released
+   denominations and is not denoted by a prover string:
+   - at a height that is not a reward height nothing changes;
+   - at a reward height the block does not panic; every file keeps exactly the slots that met
+     their obligation (in order; the records of the others are deleted; start, interval and size
+     are untouched; an old file that had no prover left is removed); each registered provider's
+     burn counter rises by the number of files it was dropped from;
+   - with w p = bytes credited to prover p in this block (sum over files of size * [listed and
+     met]) and T = the denominator (sum of size * listed slots), per released denomination (d, C):
+     a counted prover (w p > 0) whose account no other counted prover denotes receives exactly
+     pay = trunc(Quo(w p, T) * C), with w*C/T - 1 - C/10^18 < pay <= w*C/T + C/10^18 (within one
+     base unit of floor(w*C/T) when C <= 10^18); every other account except the module account
+     receives nothing; no balance moves in a denomination that was not released; any set of
+     accounts other than the module account receives together at most C; the module account
+     keeps the rest.
+   The released coins are the block's input here; C03_block_pays_at_most_what_the_gauges_release
+   below instantiates them with what the gauge model (C12) releases. *)
+Theorem C03_reward_block_pays_each_counted_prover_its_share_once :
+  forall macct accts cw h coins s,
+  cw <> 0 ->
+  Forall wf_file (b_files s) -> bu_in64 (b_burn s) ->
+  Forall (fun f => 0 <= f_size f) (b_files s) ->
+  total_size (b_files s) <= int64_max ->
+  NoDup (akeys coins) -> (forall d C, In (d, C) coins -> 0 <= C) ->
+  (forall d C, In (d, C) coins -> Z.of_nat (slots (b_files s)) * C < 2 * P18) ->
+  (forall d, In d (akeys coins) -> 0 <= bal (b_bank s) macct d) ->
+  (forall p x, aget N.eqb accts p = Some x -> x <> macct) ->
+  let files := b_files s in
+  let T := total_size files in
+  let w := credited h files in
+  (0 < Z.rem h cw -> run_reward_block macct accts cw h coins s = Ok s) /\
+  (Z.rem h cw <= 0 ->
+   exists s', run_reward_block macct accts cw h coins s = Ok s' /\
+     Forall2 (fun f f' =>
+        f_proofs f' = filter (ok_slot h f) (f_proofs f) /\
+        f_start f' = f_start f /\ f_interval f' = f_interval f /\ f_size f' = f_size f /\
+        f_live f' = (match f_proofs f with [] => is_young f h && f_live f | _ => f_live f end) /\
+        (forall k, aget N.eqb (f_recs f') k =
+                   if nmem k (f_proofs f) && negb (ok_slot h f k) then None else aget N.eqb (f_recs f) k))
+       files (b_files s') /\
+     (forall q, aget N.eqb (b_burn s') q =
+                option_map (fun b => wrap64 (b + failed h files q)) (aget N.eqb (b_burn s) q)) /\
+     (forall p a d C, 0 < w p -> aget N.eqb accts p = Some a ->
+        (forall q, q <> p -> aget N.eqb accts q = Some a -> w q <= 0) ->
+        In (d, C) coins ->
+        let pay := bal (b_bank s') a d - bal (b_bank s) a d in
+        pay = owed (w p) T C /\ 0 <= pay /\
+        P18 * T * pay <= P18 * (w p * C) + T * C /\
+        P18 * (w p * C) - T * C < P18 * T * (pay + 1) /\
+        (C <= P18 -> (w p * C) / T - 1 <= pay <= (w p * C) / T + 1)) /\
+     (forall x d, x <> macct -> (forall p, aget N.eqb accts p = Some x -> w p <= 0) ->
+        bal (b_bank s') x d = bal (b_bank s) x d) /\
+     (forall x d, ~ In d (akeys coins) -> bal (b_bank s') x d = bal (b_bank s) x d) /\
+     (forall xs d C, NoDup xs -> ~ In macct xs -> In (d, C) coins ->
+        sumz (fun x => bal (b_bank s') x d - bal (b_bank s) x d) xs <= C) /\
+     (forall d C, In (d, C) coins ->
+        bal (b_bank s) macct d <= bal (b_bank s') macct d <= bal (b_bank s) macct d + C)).
+Proof. exact reward_block_spec. Qed.
+Print Assumptions C03_reward_block_pays_each_counted_prover_its_share_once.
+
+(* ---------- the released coins are what the gauges of C12 release ----------
+   Model/Gauge.v (property C12) models pullTokensFromGauges gauge by gauge; its reward_block moves
+   the releases into gs_pool (the module account).  Translation (Proofs/RewardGaugeBridge.v):
+   gauges_release gs now = the moved coins of all gauges added up per denomination,
+   to_released = without the zero entries (the [coins] argument of run_reward_block),
+   pool_agrees macct b pool = row macct of Rewards' bank holds what Gauge's pool holds,
+   closed_release now g acct d = cum_at(start, end, recorded, now) - (recorded - balance) for a
+   gauge this block looks at (not past its end, account not empty), 0 otherwise,
+   release_sum now gs d = sum of closed_release over the gauges of gs.
+
+   For every state satisfying Gauge's invariant and every block time not before the last one:
+   the translated release has one entry per denomination, every entry is positive and equals the
+   sum over the gauges of C12's closed form, denominations without an entry release 0; Gauge's
+   reward block does not panic, and after the credit run_reward_block performs Rewards' module
+   account agrees with Gauge's pool after its reward block, so the release is in the module
+   account when the payout runs. *)
+Theorem C03_gauge_release_meets_payout_hypotheses :
+  forall tl gs now, Inv tl gs -> tl <= now ->
+  let coins := to_released (gauges_release gs now) in
+  NoDup (akeys coins) /\
+  (forall d C, In (d, C) coins -> 0 < C /\ C = release_sum now gs d) /\
+  (forall d, ~ In d (akeys coins) -> release_sum now gs d = 0) /\
+  (forall d, relof coins d = release_sum now gs d) /\
+  exists gs', reward_block gs now = Some gs' /\
+    forall macct b, pool_agrees macct b (gs_pool gs) ->
+      pool_agrees macct (pull macct coins b) (gs_pool gs') /\
+      ((forall d, 0 <= cval (gs_pool gs) d) ->
+       forall d C, In (d, C) coins -> C <= bal (pull macct coins b) macct d).
+Proof. exact gauge_release_meets_payout_hypotheses. Qed.
+Print Assumptions C03_gauge_release_meets_payout_hypotheses.
+
+(* what arrives in Gauge's pool is exactly gauges_release, i.e. the sum of the closed forms *)
+Theorem C03_gauge_pool_gains_the_closed_form_sum :
+  forall tl gs now, Inv tl gs -> tl <= now ->
+  exists gs', reward_block gs now = Some gs' /\
+    (forall d, cval (gs_pool gs') d = cval (gs_pool gs) d + cval (gauges_release gs now) d) /\
+    NoDup (map fst (gauges_release gs now)) /\
+    (forall d, cval (gauges_release gs now) d =
+               sumz (fun ig => closed_release now (snd ig) (escrow_of gs (fst ig)) d) (gs_gauges gs)) /\
+    (forall d, 0 <= release_sum now gs d).
+Proof. exact gauge_release_spec. Qed.
+Print Assumptions C03_gauge_pool_gains_the_closed_form_sum.
+
+(* COROLLARY: the reward block with its gauge side (state gs satisfying C12's invariant, block
+   time now) and its file side (state s with C17-well-formed files, reward height h): neither
+   model panics, and per denomination the accounts other than the module account — in particular
+   all provers — receive together at most the sum over the gauges of the closed-form release;
+   the module account keeps the rest. *)
+Theorem C03_block_pays_at_most_what_the_gauges_release :
+  forall macct accts cw h tl now gs s,
+  Inv tl gs -> tl <= now ->
+  cw <> 0 -> Z.rem h cw <= 0 ->
+  Forall wf_file (b_files s) -> bu_in64 (b_burn s) ->
+  Forall (fun f => 0 <= f_size f) (b_files s) ->
+  total_size (b_files s) <= int64_max ->
+  (forall d, Z.of_nat (slots (b_files s)) * release_sum now gs d < 2 * P18) ->
+  (forall d, 0 <= bal (b_bank s) macct d) ->
+  (forall p x, aget N.eqb accts p = Some x -> x <> macct) ->
+  exists gs' s',
+    reward_block gs now = Some gs' /\
+    run_reward_block macct accts cw h (to_released (gauges_release gs now)) s = Ok s' /\
+    (forall xs d, NoDup xs -> ~ In macct xs ->
+       sumz (fun x => bal (b_bank s') x d - bal (b_bank s) x d) xs <=
+       sumz (fun ig => closed_release now (snd ig) (escrow_of gs (fst ig)) d) (gs_gauges gs)) /\
+    (forall d, bal (b_bank s) macct d <= bal (b_bank s') macct d <= bal (b_bank s) macct d + release_sum now gs d).
+Proof. exact block_pays_at_most_gauge_release. Qed.
+Print Assumptions C03_block_pays_at_most_what_the_gauges_release.
+
+(* the same with the release written as C12's cum_at difference.  [synced lp gs]: every listed
+   gauge id has released, per denomination, exactly cum_at at the instant lp id (recorded -
+   balance = cum_at(start, end, recorded, lp id)).  It holds right after every reward block with
+   lp = the block's time, a creation keeps it with lp id = the gauge's start, and so some lp
+   satisfies it along every history that C12 accepts (next two theorems). *)
+Theorem C03_block_pays_at_most_cum_at_difference :
+  forall macct accts cw h tl now lp gs s,
+  Inv tl gs -> synced lp gs -> tl <= now ->
+  cw <> 0 -> Z.rem h cw <= 0 ->
+  Forall wf_file (b_files s) -> bu_in64 (b_burn s) ->
+  Forall (fun f => 0 <= f_size f) (b_files s) ->
+  total_size (b_files s) <= int64_max ->
+  (forall d, Z.of_nat (slots (b_files s)) * release_diff now lp gs d < 2 * P18) ->
+  (forall d, 0 <= bal (b_bank s) macct d) ->
+  (forall p x, aget N.eqb accts p = Some x -> x <> macct) ->
+  exists gs' s',
+    reward_block gs now = Some gs' /\ synced (fun _ => now) gs' /\
+    run_reward_block macct accts cw h (to_released (gauges_release gs now)) s = Ok s' /\
+    forall xs d, NoDup xs -> ~ In macct xs ->
+      sumz (fun x => bal (b_bank s') x d - bal (b_bank s) x d) xs <=
+      sumz (fun ig : N * gauge =>
+              let g := snd ig in
+              if gauge_live now g (escrow_of gs (fst ig))
+              then cum_at (g_start g) (g_end g) (cval (g_coins g) d) now
+                   - cum_at (g_start g) (g_end g) (cval (g_coins g) d) (lp (fst ig))
+              else 0) (gs_gauges gs).
+Proof. exact block_pays_at_most_cum_at_difference. Qed.
+Print Assumptions C03_block_pays_at_most_cum_at_difference.
+
+Theorem C03_synced_after_reward_block_and_creation :
+  (forall tl s now s', Inv tl s -> tl <= now -> reward_block s now = Some s' -> synced (fun _ => now) s') /\
+  (forall tl s id now e cs lp, Inv tl s -> synced lp s -> op_ok tl s (OpCreate id now e cs) ->
+     synced (fun i => if N.eqb i id then now else lp i) (create_gauge s id now e cs)).
+Proof. exact (conj synced_after_block synced_create). Qed.
+Print Assumptions C03_synced_after_reward_block_and_creation.
+
+Theorem C03_gauge_histories_keep_invariant_and_synced :
+  forall t0 ops, hist_ok t0 gempty ops ->
+  exists gs, grun gempty ops = Some gs /\ Inv (end_time t0 ops) gs /\ exists lp, synced lp gs.
+Proof. exact history_synced. Qed.
+Print Assumptions C03_gauge_histories_keep_invariant_and_synced.
+
 (* realistic magnitudes meet the side conditions: 10^6 listed slots, a release of 10^12 base units *)
 Example C03_ex_side_condition : 1000000 * 10 ^ 12 < 2 * P18.
 Proof. vm_compute. reflexivity. Qed.
@@ -226,3 +401,134 @@ Example C03_side_condition_needed :
   | Panic => 0
   end = 1000 - 12.
 Proof. vm_compute. reflexivity. Qed.
+
+(* ---------- the whole block on a concrete state: two files, three provers ----------
+   height 300, CheckWindow 100.  File 1 (start 10, window 50, 1000 bytes) lists provers 1, 2, 3:
+   1 last proved at 209 (one block before the previous window: dropped), 2 and 3 pass.
+   File 2 (start 20, window 50, 500 bytes) lists 2 and 3: its previous window starts at 220,
+   2 proved at 250 (passes), 3 at 100 (dropped).  Credited: w 1 = 0, w 2 = 1500, w 3 = 1000;
+   T = 3*1000 + 2*500 = 4000.  Released: 8000 of denomination 1 and 77 of denomination 3. *)
+Definition ex_file2 : file :=
+  {| f_start := 20; f_interval := 50; f_size := 500;
+     f_proofs := [2; 3]%N;
+     f_recs := [(2%N, {| pr_prover := 2; pr_last := 250 |}); (3%N, {| pr_prover := 3; pr_last := 100 |})];
+     f_live := true |}.
+Definition ex_block : bstate :=
+  {| b_files := [ex_abc; ex_file2];
+     b_burn := [(1%N, 0); (2%N, 4); (3%N, 0)];
+     b_bank := [((900%N, 1%N), 5); ((12%N, 1%N), 100)] |}.
+Definition ex_block_accts : list (N * N) := [(1, 11); (2, 12); (3, 13)]%N.
+Definition ex_released : list (N * Z) := [(1%N, 8000); (3%N, 77)].
+
+Example C03_ex_block_hypotheses :
+  100 <> 0 /\ Forall wf_file (b_files ex_block) /\ bu_in64 (b_burn ex_block) /\
+  Forall (fun f => 0 <= f_size f) (b_files ex_block) /\
+  total_size (b_files ex_block) <= int64_max /\
+  NoDup (akeys ex_released) /\ (forall d C, In (d, C) ex_released -> 0 <= C) /\
+  (forall d C, In (d, C) ex_released -> Z.of_nat (slots (b_files ex_block)) * C < 2 * P18) /\
+  (forall d, In d (akeys ex_released) -> 0 <= bal (b_bank ex_block) 900%N d) /\
+  (forall p x, aget N.eqb ex_block_accts p = Some x -> x <> 900%N).
+Proof.
+  split; [discriminate|].
+  split.
+  { constructor; [exact C03_ex_wf|]. constructor; [|constructor]. constructor.
+    - repeat constructor; cbn; intuition discriminate.
+    - discriminate.
+    - intros k [<-|[<-|[]]]; eexists; split; reflexivity. }
+  split.
+  { intros q b. unfold ex_block. cbn [b_burn aget].
+    repeat (destruct (N.eqb q _); [intros [= <-]; vm_compute; split; discriminate|]). discriminate. }
+  split; [repeat constructor; discriminate|].
+  split; [vm_compute; discriminate|].
+  split; [repeat constructor; cbn; intuition discriminate|].
+  split; [intros d C [[= <- <-]|[[= <- <-]|[]]]; discriminate|].
+  split; [intros d C [[= <- <-]|[[= <- <-]|[]]]; vm_compute; reflexivity|].
+  split; [intros d [<-|[<-|[]]]; vm_compute; discriminate|].
+  intros p x. unfold ex_block_accts. cbn [aget].
+  repeat (destruct (N.eqb p _); [intros [= <-]; discriminate|]). discriminate.
+Qed.
+
+(* the theorem applied to it (300 is a reward height for CheckWindow 100) ... *)
+Example C03_ex_block_instance :
+  exists s', run_reward_block 900%N ex_block_accts 100 300 ex_released ex_block = Ok s' /\
+    Forall2 (file_after 300) (b_files ex_block) (b_files s') /\
+    (forall q, aget N.eqb (b_burn s') q =
+               option_map (fun b => wrap64 (b + failed 300 (b_files ex_block) q)) (aget N.eqb (b_burn ex_block) q)) /\
+    bank_after 900%N ex_block_accts ex_released (credited 300 (b_files ex_block)) (total_size (b_files ex_block))
+               (b_bank ex_block) (b_bank s').
+Proof.
+  destruct C03_ex_block_hypotheses as (H1 & H2 & H3 & H4 & H5 & H6 & H7 & H8 & H9 & H10).
+  apply (proj2 (C03_reward_block_pays_each_counted_prover_its_share_once
+                  900%N ex_block_accts 100 300 ex_released ex_block H1 H2 H3 H4 H5 H6 H7 H8 H9 H10)).
+  vm_compute. intros C. discriminate C.
+Qed.
+
+(* ... and the values it speaks about: prover lists, burn counters, credited bytes and
+   denominator, the payments 1500/4000*8000 = 3000, 1000/4000*8000 = 2000, trunc(0.375*77) = 28,
+   trunc(0.25*77) = 19, nothing for the dropped prover 1 (account 11), the rest in the module account *)
+Example C03_ex_block_run :
+  match run_reward_block 900%N ex_block_accts 100 300 ex_released ex_block with
+  | Ok s' => (map f_proofs (b_files s'), b_burn s',
+              map (fun x => (bal (b_bank s') x 1%N - bal (b_bank ex_block) x 1%N,
+                             bal (b_bank s') x 3%N - bal (b_bank ex_block) x 3%N)) [11; 12; 13; 900]%N)
+  | Panic => ([], [], [])
+  end = ([[2; 3]; [2]]%N, [(1%N, 1); (2%N, 4); (3%N, 1)], [(0, 0); (3000, 28); (2000, 19); (3000, 30)]) /\
+  map (credited 300 (b_files ex_block)) [1; 2; 3]%N = [0; 1500; 1000] /\
+  total_size (b_files ex_block) = 4000 /\
+  run_reward_block 900%N ex_block_accts 100 301 ex_released ex_block = Ok ex_block.
+Proof. vm_compute. repeat split; reflexivity. Qed.
+
+(* ---------- the block with its gauge side: one gauge of 80000 over 1000 s, 10 % elapsed ----------
+   the gauge releases cum_at(now) - cum_at(start) = 8000 of denomination 1, which is the release
+   of the example above without denomination 3 *)
+Definition ex_gs : gstate := create_gauge gempty 1 1000 1000000001000 [(1%N, 80000)].
+Definition ex_now : Z := 100000001000.
+Definition ex_lp : N -> Z := fun i => if N.eqb i 1 then 1000 else 0.
+
+Example C03_ex_gauge_state : Inv 1000 ex_gs /\ synced ex_lp ex_gs.
+Proof.
+  assert (O : op_ok 1000 gempty (OpCreate 1 1000 1000000001000 [(1%N, 80000)])).
+  { unfold op_ok. replace (aget N.eqb (gs_gauges gempty) 1%N) with (@None gauge) by reflexivity.
+    split; [lia|]. split; [unfold wf_interval, max_dur; lia|].
+    split; [constructor; [intros []|constructor]|].
+    split; [intros d x [[= <- <-]|[]]; lia|].
+    split; [reflexivity|]. intros d. unfold cval, aval. cbn [aget].
+    destruct (N.eqb d 1); unfold int64_max; lia. }
+  split.
+  - exact (create_ok 1000 gempty 1 1000 1000000001000 _ (inv_empty 1000) O).
+  - exact (synced_create 1000 gempty 1 1000 1000000001000 _ (fun _ => 0) (inv_empty 1000) (synced_empty _) O).
+Qed.
+
+Example C03_ex_gauge_block_instance :
+  exists gs' s',
+    reward_block ex_gs ex_now = Some gs' /\ synced (fun _ => ex_now) gs' /\
+    run_reward_block 900%N ex_block_accts 100 300 (to_released (gauges_release ex_gs ex_now)) ex_block = Ok s' /\
+    forall xs d, NoDup xs -> ~ In 900%N xs ->
+      sumz (fun x => bal (b_bank s') x d - bal (b_bank ex_block) x d) xs <= release_diff ex_now ex_lp ex_gs d.
+Proof.
+  destruct C03_ex_gauge_state as [HI SY].
+  destruct C03_ex_block_hypotheses as (H1 & H2 & H3 & H4 & H5 & _ & _ & _ & _ & H10).
+  assert (TL : 1000 <= ex_now) by (vm_compute; intros C; discriminate C).
+  assert (RH : Z.rem 300 100 <= 0) by (vm_compute; intros C; discriminate C).
+  apply (block_pays_at_most_cum_at_difference 900%N ex_block_accts 100 300 1000 ex_now ex_lp ex_gs ex_block
+           HI SY TL H1 RH H2 H3 H4 H5); [| |exact H10].
+  - intros d. rewrite <- (release_sum_synced ex_now ex_lp ex_gs d (proj1 HI) SY).
+    destruct (gauge_release_spec 1000 ex_gs ex_now HI TL) as (_ & _ & _ & _ & CL & _).
+    rewrite <- CL. replace (gauges_release ex_gs ex_now) with [(1%N, 8000)] by (vm_compute; reflexivity).
+    unfold cval, aval. cbn [aget]. destruct (N.eqb d 1); vm_compute; reflexivity.
+  - intros d. unfold bal, aval, ex_block. cbn [b_bank aget]. unfold peqb. cbn [fst snd].
+    change (N.eqb 900 900) with true. change (N.eqb 900 12) with false. cbn [andb].
+    destruct (N.eqb d 1); lia.
+Qed.
+
+Example C03_ex_gauge_block_run :
+  to_released (gauges_release ex_gs ex_now) = [(1%N, 8000)] /\
+  release_sum ex_now ex_gs 1 = 8000 /\ release_diff ex_now ex_lp ex_gs 1 = 8000 /\
+  release_sum ex_now ex_gs 3 = 0 /\
+  option_map (fun gs' => (cval (gs_pool gs') 1, cval (escrow_of gs' 1) 1)) (reward_block ex_gs ex_now)
+    = Some (8000 - 80000, 72000) /\
+  match run_reward_block 900%N ex_block_accts 100 300 (to_released (gauges_release ex_gs ex_now)) ex_block with
+  | Ok s' => map (fun x => bal (b_bank s') x 1%N - bal (b_bank ex_block) x 1%N) [11; 12; 13; 900]%N
+  | Panic => []
+  end = [0; 3000; 2000; 3000].
+Proof. vm_compute. repeat split; reflexivity. Qed.
